@@ -73,7 +73,8 @@ def study_function(this_run_dir, *args):
     W.update(phase='studied', case=k)
     if os.path.basename(os.path.dirname(os.path.normpath(this_run_dir))).startswith('prelude'):
         return {'v': f_value(values), 'args': np.asarray(values, dtype=float)}      # unrelated study: not counted
-    line = ('%d\t%s\n' % (k, json.dumps(values))).encode()
+    study_dir = os.path.dirname(os.path.normpath(this_run_dir))      # outer study or a nested restarted_study_N
+    line = ('%d\t%s\t%s\n' % (k, json.dumps(values), study_dir)).encode()
     fd = os.open(os.path.join(CONFIG['counter_dir'], 'case_%d.cnt' % k), os.O_WRONLY | os.O_CREAT | os.O_APPEND, 0o644)
     try:
         os.write(fd, line)
@@ -367,6 +368,17 @@ def snapshot(study_dir):
     return snap
 
 
+def read_counters(counter_dir):
+    """All executions recorded so far: [dir case number, inputs, study directory the case was executed for]."""
+    lines = []
+    for name in sorted(os.listdir(counter_dir)):
+        with open(os.path.join(counter_dir, name)) as fh:
+            for ln in fh.read().splitlines():
+                k, args, study_dir = ln.split('\t')
+                lines.append([int(k), json.loads(args), study_dir])
+    return lines
+
+
 def _disk_state(study_dir, counter_dir):
     out = []
     for d in (study_dir, counter_dir):
@@ -455,6 +467,7 @@ def main(argv):
         if i + 1 < len(sequence):
             payload['settled'] = _settle(run['dir'], spec['counter_dir'])
             payload['snapshot_after'] = {str(k): v for k, v in snapshot(run['dir']).items()}
+            payload['counters_after'] = read_counters(spec['counter_dir'])
         _write_out(run['out'], payload)
     return 0
 
